@@ -67,7 +67,7 @@ type Config struct {
 	Trace bool
 }
 
-const abortSignal = -1
+const abortSignal = -1 << 30 // distinct from every alternative index (-1 is a select's default arm)
 
 // fairStreak: see decide.
 const fairStreak = 3000
